@@ -342,8 +342,20 @@ func c01Fields9p(r *Run) {
 				bound := false
 				for _, cd := range condsAtInstr(c) {
 					nc := normCond(cd)
-					if b, ok := nc.V.(*ssa.BinOp); ok && b.Op == token.LSS && nc.Truth && b.X == ssa.Value(phi) {
-						if bc, ok := b.Y.(*ssa.Call); ok && calleeName(&bc.Call) == "(reflect.Value).NumField" {
+					b, ok := nc.V.(*ssa.BinOp)
+					if !ok {
+						continue
+					}
+					// the condition as lo < hi, whichever way it is written (i < n, n > i, !(i >= n), !(n <= i))
+					var lo, hi ssa.Value
+					switch {
+					case b.Op == token.LSS && nc.Truth, b.Op == token.GEQ && !nc.Truth:
+						lo, hi = b.X, b.Y
+					case b.Op == token.GTR && nc.Truth, b.Op == token.LEQ && !nc.Truth:
+						lo, hi = b.Y, b.X
+					}
+					if lo == ssa.Value(phi) {
+						if bc, ok := hi.(*ssa.Call); ok && calleeName(&bc.Call) == "(reflect.Value).NumField" {
 							bound = true
 						}
 					}
